@@ -65,3 +65,19 @@ Fixpoint prune_n (n : nat) (es : list edge) : list edge :=
   match n with 0 => es | S n' => prune_n n' (prune es) end.
 Definition graph_ok (nfun : nat) (es : list edge) : bool :=
   negb (existsb is_bad es) && match prune_n nfun (filter is_same es) with [] => true | _ => false end.
+
+(** a rank certificate for the same-depth edges: along every edge that passes [depth] on unchanged (and does not
+    enter the counting function) the rank of the callee is strictly smaller — so between two increments of the depth
+    at most [rank] C activations can pile up *)
+Definition edge_ok (rank : nat -> nat) (e : edge) : bool :=
+  match e with
+  | (a, b, Same) => rank b <? rank a
+  | (_, _, Inc) => true
+  | (_, _, Bad) => false
+  end.
+(** a chain of Same edges of the graph starting at function v *)
+Fixpoint same_chain (es : list edge) (v : nat) (p : list edge) : Prop :=
+  match p with
+  | [] => True
+  | e :: p' => match e with (a, b, k) => a = v /\ k = Same /\ In e es /\ same_chain es b p' end
+  end.
